@@ -81,7 +81,8 @@ ASSUMPTIONS = [
     "other character that str.splitlines treats as a line boundary (\\r, \\x0b, \\x0c, \\x1c-\\x1e, \\x85, U+2028/9), "
     "no NUL, nothing the always-on password obfuscation rewrites",
     "component graph family: two implementations of a filterable spec, a second spec (filterable or not) with one "
-    "implementation, two parsers and a combiner built on them in every combination; no datasource that depends on "
+    "implementation, two parsers and a combiner built on them in every combination or on one parser and the second "
+    "spec directly (mixed dependency levels); no datasource that depends on "
     "a filterable datasource other than its registry point",
     "the look-up requirement compares filter STRINGS; for budgets only 'a budget that was registered for that "
     "string' is required (the statement does not say which budget wins)",
@@ -96,7 +97,7 @@ ASSUMPTIONS = [
 
 def random_hist(rng, i):
     g = dict(p2f=rng.random() < 0.5, q2=rng.choice([["P"], ["P2"], ["P", "P2"]]),
-             k=rng.choice([["Q1"], ["Q2"], ["Q1", "Q2"]]))
+             k=rng.choice([["Q1"], ["Q2"], ["Q1", "Q2"], ["Q1", "P2"]]))
     hist = []
     npat = rng.randint(2, 5)
     for _ in range(rng.randint(6, 14)):
@@ -126,6 +127,13 @@ def random_hist(rng, i):
         hist += [dict(op="add", k=rng.choice(["P2", "I3"]), pats=[rng.randint(1, npat)], mx=rng.choice([1, INF])),
                  dict(op="get", k=rng.choice(["P", "I1", "D0"]), pats=[], mx=0),
                  dict(op="get", k=rng.choice(["I2", "I1"]), pats=[], mx=0, wm=True)]
+    elif r < 0.8:
+        # directed shape: a combiner over mixed dependency levels (a parser of P and the spec P2 directly);
+        # a registration through it is in force for both specs
+        g["k"] = ["Q1", "P2"]
+        hist += [dict(op="add", k="K", pats=[rng.randint(1, npat)], mx=rng.choice([1, 3, INF])),
+                 dict(op="get", k=rng.choice(["P", "I1", "I2", "D0"]), pats=[], mx=0),
+                 dict(op="get", k=rng.choice(["P2", "I3"]), pats=[], mx=0)]
     return dict(id="randh#%d" % i, g=g, hist=hist)
 
 
@@ -438,7 +446,7 @@ def run(prop, tier):
                                                            for e in ctr[0]["events"][:3]]))
     ev = lib.evidence(
         prop, tier, models, val, evaluations=nev, distinct_nontrivial=nontrivial,
-        rule="histories = every add/get interleaving of depth 3 TLC enumerated over the 18 graphs (VERIF_SEED sample "
+        rule="histories = every add/get interleaving of depth 3 TLC enumerated over the 20 graphs (VERIF_SEED sample "
              "when over the replay budget) + TLC -simulate histories of depth 8 + seeded random histories of depth "
              "6-14, replayed with real SpecSet/RegistryPoint/parser/combiner objects through add_filter/get_filters; "
              "contents = (line classes, budgets) TLC enumerated (sampled) + seeded random contents of up to 9 lines "
